@@ -284,6 +284,7 @@ func classifyAuth(p *pkgInfo, fd *ast.FuncDecl, helper bool) authFacts {
 		return f
 	}
 	seen := map[string]bool{}
+	bad := "" // a field of the request is not built the expected way: still an auth function, but not `ok`
 	for _, el := range cl.Elts {
 		kv, ok := el.(*ast.KeyValueExpr)
 		if !ok {
@@ -302,41 +303,44 @@ func classifyAuth(p *pkgInfo, fd *ast.FuncDecl, helper bool) authFacts {
 			f.action = strings.TrimPrefix(v, "conf.")
 		case "Path":
 			if !helper || selChain(kv.Value) != ps[1] {
-				f.why = "Path is not the helper's path parameter"
-				return f
+				bad = "Path is not the helper's path parameter"
+				continue
 			}
 			f.usesPath = true
 		case "Credentials":
 			c, ok := kv.Value.(*ast.CallExpr)
 			if !ok || selChain(c.Fun) != "httpp.Credentials" || len(c.Args) != 1 || selChain(c.Args[0]) != ctx+".Request" {
-				f.why = "Credentials not httpp.Credentials(ctx.Request)"
-				return f
+				bad = "Credentials not httpp.Credentials(ctx.Request)"
+				continue
 			}
 		case "IP":
 			c, ok := kv.Value.(*ast.CallExpr)
 			if !ok || selChain(c.Fun) != "net.ParseIP" || len(c.Args) != 1 {
-				f.why = "IP not net.ParseIP(ctx.ClientIP())"
-				return f
+				bad = "IP not net.ParseIP(ctx.ClientIP())"
+				continue
 			}
 			ci, ok := c.Args[0].(*ast.CallExpr)
 			if !ok || selChain(ci.Fun) != ctx+".ClientIP" {
-				f.why = "IP not net.ParseIP(ctx.ClientIP())"
-				return f
+				bad = "IP not net.ParseIP(ctx.ClientIP())"
+				continue
 			}
 		case "Query":
 			if selChain(kv.Value) != ctx+".Request.URL.RawQuery" {
-				f.why = "Query not ctx.Request.URL.RawQuery"
-				return f
+				bad = "Query not ctx.Request.URL.RawQuery"
+				continue
 			}
 		case "EnableAskCredentials":
 		default:
-			f.why = "unexpected auth.Request field " + k
-			return f
+			bad = "unexpected auth.Request field " + k
+			continue
 		}
 	}
-	if !seen["Action"] || !seen["Credentials"] || !seen["IP"] {
-		f.why = "Action/Credentials/IP missing"
+	if !seen["Action"] {
+		f.why = "Action missing"
 		return f
+	}
+	if bad == "" && (!seen["Credentials"] || !seen["IP"]) {
+		bad = "Credentials/IP missing"
 	}
 	// _, err := X.AuthManager.Authenticate(req)
 	as, ok = body[1].(*ast.AssignStmt)
@@ -351,6 +355,10 @@ func classifyAuth(p *pkgInfo, fd *ast.FuncDecl, helper bool) authFacts {
 		return f
 	}
 	f.isAuth = true
+	if bad != "" {
+		f.why = bad
+		return f
+	}
 	if len(body) != wantStmts {
 		f.why = "statement count"
 		return f
@@ -965,10 +973,10 @@ func main() {
 		total += len(w.routes)
 	}
 
-	// `servers` is only emitted when all four were found
-	if len(names) == len(servers) {
-		sb.WriteString("def servers : List ServerF := [" + strings.Join(names, ", ") + "]\n")
-	} else {
+	// `servers` is always emitted (the driver must keep building when the source changes shape);
+	// a server that could not be recognised is absent and `gen_servers_complete` fails
+	sb.WriteString("def servers : List ServerF := [" + strings.Join(names, ", ") + "]\n")
+	if len(names) != len(servers) {
 		sb.WriteString("-- MISSING servers: only " + strings.Join(names, ", ") + " recognised\n")
 	}
 	sb.WriteString("\nend MtxVerif.Gen.C04\n")
